@@ -405,3 +405,16 @@ Proof.
       destruct (run f n k b) as [w|] eqn:E; [|discriminate].
       apply (IH w rest' b E Hr). cbn in *. lia.
 Qed.
+
+(* ---- outside the property's quantifier (k > n): the loop of the code does not stop ----
+   Combinations(1, 2, f): the pattern starts as [0, 1]; position 1 is never at its bound n+1-k = 0, so it is incremented for ever and
+   f is called with [0, 1], [0, 2], [0, 3], ... (indices outside 0..n-1). The harness never generates k > n. *)
+Lemma next_k_gt_n j : 1 <= j -> next 1 2 [0; j] = Some [0; j + 1].
+Proof.
+  intros H. unfold next. cbn [rev app bump]. replace (1 + (2 - 1) - 2) with 0 by lia.
+  destruct (Z.eqb_spec j 0) as [E|_]; [lia|]. reflexivity.
+Qed.
+Theorem combinations_k_gt_n_never_returns : forall fuel j, 1 <= j -> run fuel 1 2 [0; j] = None.
+Proof.
+  induction fuel as [|f IH]; intros j Hj; [reflexivity|]. cbn [run]. rewrite (next_k_gt_n j Hj), (IH (j + 1)) by lia. reflexivity.
+Qed.
